@@ -100,6 +100,8 @@ pub fn scenarios() -> Vec<(&'static str, fn() -> Option<String>)> {
         ("another-servers-same-length-same-second-commit-is-seen (C03)", sc_stale_view),
         ("refused-path-of-600k-escapable-bytes-still-answered (C11/C12)", sc_long_refused_path),
         ("put-under-a-file-keeps-stream-in-step (C12)", sc_parent_is_a_file),
+        ("every-two-step-history-on-one-path-is-the-sequential-cas (C03)", sc_exhaustive_two_steps),
+        ("get-of-every-listed-path-hashes-to-what-it-announces (C10)", sc_get_every_listed),
     ]
 }
 
@@ -108,7 +110,7 @@ fn sc_refused_put_in_step() -> Option<String> {
         let r = root(&format!("step{n}")); std::fs::write(r.join("inside.txt"), b"inside").ok()?;
         let mut s = Srv::start(&r)?; s.magic();
         let body = vec![b'x'; n];
-        for bad in ["../evil", "/abs/evil"] {
+        for bad in ["../evil", "/abs/evil", "//tmp/../evil", ".copia/commit.lock", ".copia/evil", "./.copia/x"] {
             s.send(&Request::Put { path: bad.into(), expected: None, len: n as u64, hash: h(&body) }); s.raw(&body);
             match s.recv(10) { Some(Response::Error(_)) => {} o => return Some(format!("Put with path {bad:?} and a {n}-byte body: expected an Error reply, got {o:?} (C11)")) }
             match s.get("inside.txt") { Some((6, hh, v)) if v == b"inside" && hh == h(b"inside") => {}
@@ -324,6 +326,30 @@ fn sc_hash_mismatch() -> Option<String> {
     if std::fs::read(r.join("f")).ok().as_deref() != Some(b"orig") { return Some("Put with a wrong hash changed the live path (C10)".into()); }
     if !matches!(after, Some((4, _, ref v)) if v == b"orig") { return Some("after a refused (hash mismatch) Put the next request did not get its normal reply (C12)".into()); }
     None
+}
+/// C10, fetch clause, for every kind of path a hub tree can list: regular files (empty, one byte, several read chunks), and a
+/// symlink INSIDE the tree to a regular file. Whatever Get announces, the bytes it streams are that many and hash to it.
+fn sc_get_every_listed() -> Option<String> {
+    let r = root("getall");
+    std::fs::create_dir_all(r.join("releases")).ok()?;
+    std::fs::write(r.join("releases/v1.bin"), vec![1u8; 70_000]).ok()?; std::fs::write(r.join("releases/v2.bin"), vec![2u8; 280_000]).ok()?;
+    std::fs::write(r.join("empty"), b"").ok()?; std::fs::write(r.join("one"), b"1").ok()?;
+    std::os::unix::fs::symlink("releases/v2.bin", r.join("latest.bin")).ok()?;
+    let mut s = Srv::start(&r)?; s.magic();
+    s.send(&Request::List);
+    let listed: Vec<String> = match s.recv(10) { Some(Response::Fingerprints(m)) => m.into_keys().collect(), o => return Some(format!("List on a tree with a symlink inside it: {o:?} (C10)")) };
+    let mut res = None;
+    for p in listed.iter().map(String::as_str).chain(["latest.bin", "releases/v2.bin", "empty"]) {
+        s.send(&Request::Get { path: p.into() });
+        match s.recv(10) {
+            Some(Response::Content { len, hash }) => { let mut v = vec![0u8; len as usize]; if s.r.read_exact(&mut v).is_err() { res = Some(format!("Get {p:?} announced {len} bytes and streamed fewer (C10)")); break; }
+                if h(&v) != hash { res = Some(format!("Get {p:?} announced {len} bytes and a hash; the {len} bytes it streamed do not hash to it{} (C10)", if p == "latest.bin" { " (the path is a symlink inside the tree to releases/v2.bin)" } else { "" })); break; } }
+            Some(Response::Error(_)) => {}
+            o => { res = Some(format!("Get {p:?}: unexpected reply {o:?} (C10)")); break; }
+        }
+    }
+    let _ = s.close_and_wait(5); let _ = std::fs::remove_dir_all(&r);
+    res
 }
 fn sc_get_consistent() -> Option<String> {
     // schedule: the Get server is delayed (strace fault injection) right before the open that STREAMS the file, i.e.
@@ -672,6 +698,48 @@ pub fn random_program(rseed: u64) -> Option<String> {
     }
     let _ = std::fs::remove_dir_all(&r);
     res.map(|w| format!("[random program {rseed}: {}] {w} (C03/C10/C11/C12)", trace.join("; ")))
+}
+/// C03, one request at a time, EXHAUSTIVELY for short histories on one path: initial state in {absent, X, Y}, then every pair of
+/// operations out of Put(expected in {None, h(X), h(Y)}, content in {X, Y}) and Delete(expected in {None, h(X), h(Y)}), each
+/// sent to its own server process. Every reply and the final tree must be those of the sequential compare-and-swap - in
+/// particular when the content sent equals the version named by a stale `expected`.
+fn sc_exhaustive_two_steps() -> Option<String> { exhaustive_steps(2) }
+pub fn exhaustive_steps(depth: usize) -> Option<String> {
+    let (x, y) = (b"version-X".to_vec(), b"Y".to_vec());
+    let exps = [None, Some(h(&x)), Some(h(&y))];
+    let mut ops: Vec<COp> = vec![];
+    for e in exps.iter() { for c in [&x, &y] { ops.push(COp::Put("doc".into(), *e, c.clone())); } }
+    for e in exps.iter() { ops.push(COp::Del("doc".into(), *e)); }
+    let name = |o: &COp| match o { COp::Put(_, e, c) => format!("Put(expected {}, content {})", match e { None => "None", Some(v) if *v == h(&x) => "h(X)", _ => "h(Y)" }, if *c == x { "X" } else { "Y" }),
+                                    COp::Del(_, e) => format!("Delete(expected {})", match e { None => "None", Some(v) if *v == h(&x) => "h(X)", _ => "h(Y)" }) };
+    let n = ops.len();
+    let total = n.pow(depth as u32);
+    for init in 0..3usize {
+        for code in 0..total {
+            let seq: Vec<&COp> = (0..depth).map(|k| &ops[(code / n.pow(k as u32)) % n]).collect();
+            let r = root(&format!("exh{init}_{code}"));
+            let mut model = Model::new();
+            match init { 1 => { model.insert("doc".into(), x.clone()); } 2 => { model.insert("doc".into(), y.clone()); } _ => {} }
+            for (p, c) in &model { std::fs::write(r.join(p), c).ok()?; }
+            let mut bad = None;
+            for (k, op) in seq.iter().enumerate() {
+                let mut s = Srv::start(&r)?; s.magic();
+                let got = match op { COp::Put(p, e, c) => s.put(p, *e, c), COp::Del(p, e) => { s.send(&Request::Delete { path: p.clone(), expected: *e }); s.recv(10) } };
+                let want = seq_apply(&mut model, op);
+                let _ = s.close_and_wait(5);
+                if !got.as_ref().map(|g| same_reply(g, &want)).unwrap_or(false) { bad = Some(format!("request {} `{}` was answered {got:?}; the sequential compare-and-swap answers {want:?}", k + 1, name(op))); break; }
+            }
+            if bad.is_none() {
+                let live: Model = live_files(&r).into_iter().filter(|(p, _)| !p.ends_with(".copia-tmp")).collect();
+                if live != model { bad = Some(format!("the hub tree afterwards is {:?}, the sequential execution gives {:?}", live.iter().map(|(p, c)| (p.clone(), String::from_utf8_lossy(c).into_owned())).collect::<Vec<_>>(), model.iter().map(|(p, c)| (p.clone(), String::from_utf8_lossy(c).into_owned())).collect::<Vec<_>>())); }
+            }
+            let _ = std::fs::remove_dir_all(&r);
+            if let Some(b) = bad {
+                return Some(format!("one path, initial state {}, requests one at a time (each to its own server): {} - {b} (C03)", ["absent", "X", "Y"][init], seq.iter().map(|o| name(o)).collect::<Vec<_>>().join("; ")));
+            }
+        }
+    }
+    None
 }
 // ---- thorough tier: CONCURRENT random programs + a linearizability check (Wing & Gong style search) ----
 #[derive(Clone, Debug)]
